@@ -126,13 +126,15 @@ class MountFS(FS):
 
     def close(self):
         # type: () -> None
+        # Mark this filesystem closed first: should a child fail to close,
+        # no further access through the mount points is possible (as in MultiFS)
+        super(MountFS, self).close()
         # Explicitly closes children if requested
         if self.auto_close:
             for _path, fs in self.mounts:
                 fs.close()
             del self.mounts[:]
         self.default_fs.close()
-        super(MountFS, self).close()
 
     def desc(self, path):
         # type: (Text) -> Text
